@@ -56,6 +56,8 @@ def type_of(c):
         import decimal
         f = {'le10_5': {'le': decimal.Decimal('10.5')}, 'lt1': {'lt': decimal.Decimal(1)}, 'ge10_5': {'ge': decimal.Decimal('10.5')}, 'gt1': {'gt': decimal.Decimal(1)}}[c['facet']]
         return {'k': 'prim', 'p': 'Decimal', 'facets': f}
+    if g == 'nbound':
+        return {'k': 'prim', 'p': 'DateTime', 'facets': {c['facet']: {'dt': [2020, 1, 1, 0, 0, 0, 0, 9999]}}}
     if g == 'zone':
         return {'k': 'prim', 'p': 'DateTime', 'facets': {c['facet']: {'dt': [2020, 1, 1, 0, 0, 0, 0, 0]}, 'as_timezone': {'fixed': 120}}}
     if g == 'attrreq':
@@ -103,7 +105,7 @@ def value_of(c, fam):
         if c['how'] == 'absent':
             return None
         return {'q': 5} if c['ty'] == 'Obj' else 5 if c['ty'] == 'Integer' else datetime.date(2020, 1, 2) if c['ty'] == 'Date' else 'x'
-    if g == 'date':
+    if g in ('date', 'nbound'):
         from pytz import FixedOffset, utc
         inst = BOUND.replace(tzinfo=utc) + datetime.timedelta(minutes=c['delta'])
         return inst.astimezone(FixedOffset(c['off']))
@@ -152,7 +154,9 @@ def positions_of(c, fam):
     if g == 'objarr':
         return ['arg']
     pos = ['arg', 'field']
-    if g in ('num', 'big', 'str', 'enum', 'date', 'lex', 'time', 'zone', 'decbound'):
+    if g == 'nil' and c['how'] == 'absent' and fam in ('json', 'yaml', 'msgpack', 'msgpack_bin', 'jsonrpc'):
+        pos.append('nobody')          # the only argument is absent because the whole argument map is null: {"f": null}
+    if g in ('num', 'big', 'str', 'enum', 'date', 'lex', 'time', 'zone', 'nbound', 'decbound'):
         pos.append('array')
         pos.append('rep')
         pos.append('repfield')
@@ -163,7 +167,7 @@ def positions_of(c, fam):
 
 def call_shape(c, pos, T, v, ok):
     """-> args [(name, texpr, value)] for the position; ok = a valid value of T (array filler)"""
-    if pos == 'arg':
+    if pos in ('arg', 'nobody'):
         return [('v', T, v)]
     if pos == 'field':
         C = {'k': 'obj', 'name': 'C', 'fields': [['v', T], ['w', {'k': 'prim', 'p': 'Integer'}]]}
@@ -206,7 +210,11 @@ class Runner(object):
 
     def run(self, T, pos, fam, validator, shape):
         g, w = self.app(T, pos, fam, validator, shape)
-        env, body = E.request(g, fam, 'f', shape)
+        E.NOBODY[0] = pos == 'nobody'
+        try:
+            env, body = E.request(g, fam, 'f', shape)
+        finally:
+            E.NOBODY[0] = False
         del self.seen[:]
         res = E.send(w, env, body)
         ran = len(self.seen)
